@@ -88,6 +88,22 @@ PROPS = {
         trusted=COMMON_TRUST + ["verif hooks tracker/export_verif.go", "loopback UDP/HTTP servers of the harness"],
         assumptions=["the clock is advanced by ageing the tracker's timestamp; real elapsed time during a case is negligible against the 10 s margins used"],
     ),
+    "C20": dict(
+        level_text="Model/Namespace.v models path.Parse/Equal/Within/Compare, fileParms, the directory listing and playlist enumeration and the FUSE Lookup/ReadDirAll/Attr methods over a file table, plus the specification spec_resolve. Tie: 150 (quick) layouts (nested, shared prefixes, names needing escaping, empty and padding files; a quarter hostile with duplicates and prefix conflicts) registered as running torrents with verified content; every file path, every proper prefix and crafted absent paths resolved through fileParms, HEAD requests on the real mux, directory pages, playlists and the FUSE nodes (called without mounting); compared with the model, and judged against the specification by the monitor.",
+        level_note="net/http's mux and ServeContent, url.PathEscape and bazil/fuse dispatch are not modelled; paths that net/http rewrites ('.' and '..' components) are skipped. GetByName with several torrents of the same name is not exercised.",
+        harness="httpui", args=["-prop", "C20"], check_module="NamespaceCheck",
+        n_quick=150, n_thorough=3000,
+        trusted=COMMON_TRUST + ["verif hooks http/export_verif.go, fuse/export_verif.go"],
+        assumptions=["FUSE clauses are stated for sane tables (valid components, distinct paths, no path a proper prefix of another); component validity is enforced by MetadataComplete (fix 0cad2f2)"],
+    ),
+    "C19": dict(
+        level_text="Model/HttpUI.v specifies the Host check in front of every handler and the escaping functions applied where attacker-controlled strings enter pages and playlists. Theorems over all strings: a host that is neither localhost nor an IP literal is refused, and DNS names are never IP literals (c19_local_only, c19_dns_names_are_not_ip_literals); HTML-escaped text contains no tag/attribute delimiter (c19_html_escaped); path-escaped text contains no delimiter, whitespace or control byte (c19_url_escaped); playlist titles contain no line break (c19_playlist_lines). Tie: 24 Host headers x 15 (route, method) pairs on the real mux with a running torrent (status and state change), and 100 torrents built from hostile strings (name, path, tracker URL and error text via an injected tracker, web-seed URL, peer version) rendered on the root, directory, peers and playlist pages: raw occurrences of a hostile string are violations; html.EscapeString/url.PathEscape compared with the model on every string.",
+        level_note="That every handler calls checkLocal first and that every output site applies an escaping function is established by the sweep (every route x method x host; every attacker-controlled field on every page), not by a theorem over the page renderers; net.SplitHostPort/ParseIP are specified on the generated shapes. The Host header echoed inside the registerProtocolHandler script is not covered (only IP literals/localhost reach it).",
+        harness="httpui", args=["-prop", "C19"], check_module="HttpUICheck",
+        n_quick=100, n_thorough=3000,
+        trusted=COMMON_TRUST + ["verif hook http/export_verif.go (VerifMux)", "an injected tracker.Tracker implementation supplies tracker URL and error text"],
+        assumptions=[],
+    ),
 }
 
 # properties not claimed, each with a reason (kept current as checks are added)
